@@ -160,6 +160,10 @@ func PerformJoin(
 	joinEB := verImpl.NewEventBuilderFromProtoEvent(&joinEvent)
 
 	_ = json.Unmarshal(joinEvent.Content, &input.Content)
+	if input.Content == nil {
+		// a template with "content": null resets the map
+		input.Content = map[string]interface{}{}
+	}
 	input.Content["membership"] = spec.Join
 	if err = joinEB.SetContent(input.Content); err != nil {
 		return nil, &FederationError{
@@ -218,9 +222,12 @@ func PerformJoin(
 	if len(respSendJoin.GetJoinEvent()) > 0 {
 		var remoteEvent PDU
 		remoteEvent, err = verImpl.NewEventFromUntrustedJSON(respSendJoin.GetJoinEvent())
+		// It has to be a join event that this server signed, not anything the
+		// remote server made up in the joining user's name. (Not checked in
+		// pseudo ID rooms, where the signing key is per user and room.)
 		if err == nil && isWellFormedJoinMemberEvent(
 			remoteEvent, input.RoomID, senderID,
-		) {
+		) && (respMakeJoin.GetRoomVersion() == RoomVersionPseudoIDs || isSignedBy(remoteEvent, verImpl, origin, keyID, signingKey)) {
 			event = remoteEvent
 		}
 	}
@@ -348,6 +355,9 @@ func setDefaultRoomVersionFromJoinEvent(
 // isWellFormedJoinMemberEvent returns true if the event looks like a legitimate
 // membership event.
 func isWellFormedJoinMemberEvent(event PDU, roomID *spec.RoomID, senderID spec.SenderID) bool { // nolint: interfacer
+	if event.Type() != spec.MRoomMember || event.SenderID() != senderID {
+		return false
+	}
 	if membership, err := event.Membership(); err != nil {
 		return false
 	} else if membership != spec.Join {
@@ -360,6 +370,20 @@ func isWellFormedJoinMemberEvent(event PDU, roomID *spec.RoomID, senderID spec.S
 		return false
 	}
 	return true
+}
+
+// isSignedBy returns true if the event carries a valid signature of the given
+// key under the given server name and key ID.
+func isSignedBy(event PDU, verImpl IRoomVersion, serverName spec.ServerName, keyID KeyID, privateKey ed25519.PrivateKey) bool {
+	publicKey, ok := privateKey.Public().(ed25519.PublicKey)
+	if !ok {
+		return false
+	}
+	redacted, err := verImpl.RedactEventJSON(event.JSON())
+	if err != nil {
+		return false
+	}
+	return VerifyJSON(string(serverName), keyID, publicKey, redacted) == nil
 }
 
 func checkEventsContainCreateEvent(events []PDU) error {
